@@ -109,7 +109,7 @@ def monitor_renamed(sc, res):
         if io_ is None or exp[i] is None:
             continue
         if io_["exc"] is not None or io_["exit"] != exp[i]:
-            fails.append({"what": f"step {i} {st['op']['op']} {st['op'].get('h', '')}: exit {io_['exit']} {io_['exc'] or ''}, expected {exp[i]} ({sc['c04r']['path']} was renamed with -dr, later altered, later put back: the first recorded digest stays the reference)", "replay": sc})
+            fails.append({"what": f"step {i} {st['op']['op']} {st['op'].get('h', '')}: exit {io_['exit']} {io_['exc'] or ''}, expected {exp[i]} (profile {sc.get('profile')}: {sc['c04r']['path']} is altered and later put back; the first recorded digest stays the reference)", "replay": sc})
     return fails
 
 
@@ -210,6 +210,12 @@ def run(ctx):
                       {"op": "create", "at": "", "h": ["sha1"], "now": "2026-03-01 12:00:07"}, {"op": "verify", "at": ""}],
             "c04r": {"path": "day1/camA/card1/clip.mov", "expect": [0, 0, 0, None, 11, 11, None, 0, 0]}}
     scs.append(deep)
+    dot = {"root": "project", "profile": "c04-dot-folder-history", "tree": {".offline/day1/clip.mov": "clip", ".offline/day1/x.mov": "x", "p.txt": "p"},
+           "ops": [{"op": "create", "at": ".offline/day1", "h": ["md5"], "now": "2026-03-01 12:00:01"}, {"op": "write", "path": ".offline/day1/clip.mov", "data": "ALTERED"},
+                   {"op": "create", "at": "", "h": ["md5"], "now": "2026-03-01 12:00:02"}, {"op": "verify", "at": ""}, {"op": "write", "path": ".offline/day1/clip.mov", "data": "clip"},
+                   {"op": "create", "at": "", "h": ["md5", "sha1"], "now": "2026-03-01 12:00:03"}, {"op": "verify", "at": ""}],
+           "c04r": {"path": ".offline/day1/clip.mov", "expect": [0, None, 11, 11, None, 0, 0]}}
+    scs.append(dot)
     for md in ("folder", "sf"):
         for nst in (False, True):
             scs.append(seq_scenario([["md5"], ["md5", "sha1"], ["xxh64"]], mode=md, nested=nst, casetwin=1))
